@@ -70,6 +70,11 @@ def main():
     caught = {}
     if meta["confirmed"]:
         assert sh("git -C %s status --porcelain --untracked-files=no" % REPO).stdout.strip() == "", "/repo not clean"
+        # evidence files are rewritten by every check run: keep the clean-tree ones (a run on a mutated
+        # tree must never end up committed as evidence)
+        evid_keep = tempfile.mkdtemp(prefix="evid_keep_", dir="/tmp")
+        for f in os.listdir(os.path.join(VERIF, "evidence")):
+            shutil.copy(os.path.join(VERIF, "evidence", f), evid_keep)
         try:
             assert sh("git -C %s apply %s/patch.diff" % (REPO, dst)).returncode == 0
             for p in [prop] + extra:
@@ -85,6 +90,9 @@ def main():
         finally:
             sh("git -C %s checkout -- ." % REPO)
             sh("find %s/replays -name '*.json' -delete" % VERIF)
+            for f in os.listdir(evid_keep):
+                shutil.copy(os.path.join(evid_keep, f), os.path.join(VERIF, "evidence", f))
+            shutil.rmtree(evid_keep, ignore_errors=True)
     meta["what_was_run"] = ran
     meta["caught_by"] = caught
     meta["detected"] = any(v["n"] > 0 for v in caught.values())
